@@ -244,13 +244,24 @@ func (m *mappers) ToCharGroup(r comb.Result) (comb.Result, bool) {
 
 	items := r2.Val.(comb.List)
 
+	unsupported := false
 	charMap := make([]bool, len(parser.RuneClasses["ASCII"].Runes()))
 	for _, r := range items {
 		if chars, ok := r.Bag[bagKeyChars].([]rune); ok {
 			for _, c := range chars {
+				if c < 0 || int(c) >= len(charMap) {
+					unsupported = true
+					continue
+				}
+
 				charMap[c] = true
 			}
 		}
+	}
+
+	if unsupported {
+		// The input syntax is correct, but only ASCII characters are supported in character groups
+		m.errors = errors.Join(m.errors, errors.New("unsupported non-ASCII character in character group"))
 	}
 
 	alt := new(Alt)
